@@ -103,6 +103,15 @@ func (g *Gen) Bytes(n int) []byte {
 func (g *Gen) TextBytes(n int) []byte {
 	b := make([]byte, n)
 	mode := g.R.IntN(4)
+	if !g.Plain && g.R.IntN(8) == 0 {
+		// one octet throughout, mostly one whose presentation form is the longest there is (\DDD, \"): at
+		// the maximum length the text of the string is four times, or twice, as long as the string
+		fill := []byte{0x00, 0xff, 0x7f, 0x1f, 0x80, '"', '\\', ';', ' '}[g.R.IntN(9)]
+		for i := range b {
+			b[i] = fill
+		}
+		return b
+	}
 	for i := range b {
 		if g.Plain || mode == 0 {
 			b[i] = plainChars[g.R.IntN(len(plainChars))]
